@@ -1,5 +1,5 @@
 SPECIFICATION Spec
-CONSTANTS Ups = {"u1", "u2"} NC = 2 NU = 2 ClientEnd = "fin" UpEnd = "rst"
+CONSTANTS Ups = {"u1", "u2"} NC = 2 NU = 2 ClientEnd = "fin" UpEnd = "rst" DownCanHalfClose = TRUE ClientWaitsForEOF = FALSE
 INVARIANTS UpExact DownOrdered HalfCloseSeen
 PROPERTY Cleanup
 CHECK_DEADLOCK FALSE
